@@ -34,25 +34,43 @@ func WithDeadline(parent context.Context, d time.Time) (context.Context, context
 	}
 	if cur, ok := parent.Deadline(); ok && cur.Before(d) {
 		// the parent's deadline is already sooner
-		return context.WithCancel(parent)
+		return WithCancel(parent)
 	}
 	inner, cancel := context.WithCancel(parent)
 	c := &deadlineCtx{Context: inner, deadline: d}
 	dur := d.Sub(vtime.Now())
 	if dur <= 0 {
 		c.timedOut = true
+		x.Touch(&x.CancelCell, 0xdead11e)
 		cancel()
 		return c, func() {}
 	}
 	h := x.AfterFunc(dur, "ctx-deadline", func() {
 		if inner.Err() == nil {
 			c.timedOut = true
+			if x2 := vrt.Cur(); x2 != nil && !x2.Aborting() {
+				x2.Touch(&x2.CancelCell, 0xdead11e)
+			}
 			cancel()
 		}
 	})
 	return c, func() {
 		if x2 := vrt.Cur(); x2 != nil && !x2.Aborting() {
 			h.Stop()
+			x2.Touch(&x2.CancelCell, 0xca9ce1)
+		}
+		cancel()
+	}
+}
+
+// WithCancel wraps context.WithCancel so that cancellation is a hooked operation: the
+// canceller's history flows into the shared cancel cell that every reader of a Done
+// channel absorbs.
+func WithCancel(parent context.Context) (context.Context, context.CancelFunc) {
+	ctx, cancel := context.WithCancel(parent)
+	return ctx, func() {
+		if x := vrt.Cur(); x != nil && !x.Aborting() {
+			x.Touch(&x.CancelCell, 0xca9ce1)
 		}
 		cancel()
 	}
